@@ -13,6 +13,57 @@ def build_rtprops(release=False):
     return common.bin_path("rtprops", release=release)
 
 
+FUZZ_TARGETS = {"C06": ["lifecycle"], "C10": ["carc_ops"], "C11": ["cvec_ops"], "C12": ["slices_utf8"], "C13": ["int_result"], "C14": ["reprcstring"],
+                "C15": ["callback_iter"], "C16": ["layout_views"], "C19": ["waker_ops"]}
+
+
+def fuzz_part(run, rtbin):
+    """thorough tier: coverage-guided campaigns (libFuzzer + AddressSanitizer) over the same checks"""
+    import shutil, re as _re
+    targets = FUZZ_TARGETS.get(run.prop, [])
+    if not targets or run.replay:
+        return
+    r = common.sh(["cargo", "+nightly", "fuzz", "build"] + targets, cwd=common.HARNESS, timeout=3000)
+    if r.returncode != 0:
+        run.inconclusive.append("fuzz targets do not build (nightly + ASan): " + (r.stdout or "")[-400:])
+        return
+    for t in targets:
+        exe = os.path.join(common.TARGET, "x86_64-unknown-linux-gnu", "release", t)
+        wd = os.path.join(common.WORK, f"fuzz-{t}-{os.getpid()}")
+        shutil.rmtree(wd, ignore_errors=True)
+        os.makedirs(os.path.join(wd, "corpus"))
+        runs = int(os.environ.get("VERIF_FUZZ_RUNS", "400000" if t != "waker_ops" else "60000"))
+        env = dict(common.ENV); env["VERIF_FUZZ_OUT"] = wd
+        try:
+            rr = common.sh([exe, "corpus", f"-runs={runs}", f"-seed={run.seed + 1}", "-max_len=600", "-len_control=0", "-artifact_prefix=" + wd + "/"], cwd=wd, timeout=3000, env=env)
+        except Infra as e:
+            run.inconclusive.append(f"fuzz campaign {t}: {e}")
+            continue
+        out = rr.stdout or ""
+        m = _re.findall(r"#(\d+)\s+DONE\s+cov: (\d+) ft: (\d+) corp: (\d+)", out)
+        viol = []
+        done, corp = (int(m[-1][0]), int(m[-1][3])) if m else (0, 0)
+        if rr.returncode != 0:
+            reps = [f for f in os.listdir(wd) if f.startswith(run.prop + "-fuzz-") and f.endswith(".json")]
+            if reps:
+                body = json.load(open(os.path.join(wd, reps[0])))
+                viol.append({"sub": body["sub"], "key": body["key"], "what": "[found by the libFuzzer campaign] " + body["what"], "case": body["case"]})
+            else:
+                arts = [f for f in os.listdir(wd) if f.startswith("crash-") or f.startswith("leak-") or f.startswith("oom-")]
+                case, sub = None, "fuzz"
+                if arts:
+                    d = common.sh([rtbin, "--decode-fuzz", t, os.path.join(wd, arts[0])], timeout=60)
+                    try:
+                        j = json.loads((d.stdout or "").strip().splitlines()[-1]); case, sub = j["case"], j["sub"]
+                    except Exception:
+                        pass
+                san = _re.search(r"ERROR: AddressSanitizer: ([\w-]+)", out)
+                viol.append({"sub": sub, "key": "sanitizer:" + (san.group(1) if san else "crash"), "what": "libFuzzer target " + t + " died: " + out[-600:], "case": case})
+        run.add_result({"_label": "fuzz:" + t, "evaluations": done, "distinct_nontrivial": corp, "violations": viol, "known_seen": {}, "samples": [], "classes": {f"fuzz:{t}:executions": done, f"fuzz:{t}:corpus": corp},
+                        "rule": f"libFuzzer (coverage-guided, AddressSanitizer) campaign of {runs} executions from an empty corpus over the same check: bytes are decoded structurally into the check's case type (serde-based decoder), the oracle runs inside the target; distinct_nontrivial for this part = inputs libFuzzer kept because they reached new coverage"})
+        shutil.rmtree(wd, ignore_errors=True)
+
+
 def rt(run):
     b = build_rtprops(release=(run.tier == "thorough"))
     if not run.replay:
@@ -20,6 +71,8 @@ def rt(run):
         for f in common.saved_replays(run.prop):
             run.run_harness(b, timeout=300, label="regression:" + os.path.basename(f), replay_file=f)
     run.run_harness(b, timeout=7200)
+    if run.tier == "thorough":
+        fuzz_part(run, b)
 
 
 # ---------------------------------------------------------------------------------------------
